@@ -44,6 +44,7 @@ class StlPastifier(LtlPastifier, StlAstVisitor):
         LtlPastifier.__init__(self)
         self.node_horizons = dict()
         self.discrete_time = False
+        self.dense_time = False
 
     def pastify(self, ast):
         self.ast = ast
@@ -420,11 +421,15 @@ class StlPastifier(LtlPastifier, StlAstVisitor):
         return node
 
     def visitNext(self, node, *args, **kwargs):
+        if self.dense_time:
+            raise RTAMTException('Next operator not implemented in STL dense-time monitor.')
         horizon = args[0] - self.sample_duration
         child_node = self.visit(node.children[0], horizon)
         return child_node
 
     def visitStrongNext(self, node, *args, **kwargs):
+        if self.dense_time:
+            raise RTAMTException('Strong next operator not implemented in STL dense-time monitor.')
         horizon = args[0] - self.sample_duration
         child_node = self.visit(node.children[0], horizon)
         return child_node
